@@ -102,12 +102,6 @@ def spec_canonical(d, x) -> bool:
         return x.exp == expmin
     return x.c.bit_length() == p
 
-def expmin_of(d):
-    f = d['fam']
-    if f in ('fixed', 'smfixed'): return d['scale']
-    if f == 'mpfix': return d['nmin'] + 1
-    return None
-
 # ---- running the real code ------------------------------------------------------------------------
 
 def show_val(y) -> str:
@@ -149,26 +143,6 @@ class Run:
     def viol(self, what, d, finding=None, **kw):
         self.rep.violation(what, {'format': d, 'finding': finding, **{k: str(v) for k, v in kw.items()}})
 
-def is_f15(d, x, finset) -> bool:
-    """NaN/Inf that the format decodes, in an extended-float format whose finite values are all zero"""
-    return d['fam'] in ('ef', 'ieee') and (x.isnan or x.isinf) and all(v == 0 for v in finset)
-
-def is_f16(d, x, enc) -> bool:
-    """encode(±inf) returns the all-ones NaN code: MAX_VAL NaN kind, one-bit significand, infinities on"""
-    if d['fam'] != 'ef' or not x.isinf: return False
-    if not (d['kind'] == 'maxval' and d['inf'] and d['nbits'] - d['es'] == 1): return False
-    nb = d['nbits']
-    return enc == ((1 if x.s else 0) << (nb - 1)) | ((1 << (nb - 1)) - 1)
-
-def is_f2(d, x, y) -> bool:
-    """normalize() of a fixed-point family returned the significand shifted the wrong way"""
-    em = expmin_of(d)
-    if em is None or y is None or x.c == 0: return False
-    off = x.exp - em
-    if off == 0: return False
-    wrong = (x.c >> off) if off > 0 else (x.c << -off)
-    return (not y.isnan) and (not y.isinf) and y.exp == em and y.c == wrong and y.s == x.s
-
 def check_value_ops(R: Run, d, F, ft, x, b, finset, exhaustive_sorted):
     """operations on one decoded value `x` (pattern `b`) and its re-encodings"""
     rep = R.rep
@@ -178,22 +152,22 @@ def check_value_ops(R: Run, d, F, ft, x, b, finset, exhaustive_sorted):
     g, r = tryv(lambda: F.representable_in(x)); R.emit(f'repr {ft} {xt}', g)
     if r is not True:
         R.viol(f'decode({b}) = {x} is not representable_in the format that decoded it', d,
-               'F15' if is_f15(d, x, finset) else None, pattern=b, impl=g)
+               None, pattern=b, impl=g)
     # encode(decode(b))
     if hasattr(F, 'encode'):
         g, e = tryv(lambda: F.encode(x)); R.emit(f'enc {ft} {xt}', g)
         if e is None:
-            R.viol(f'encode(decode({b})) raises {g}', d, 'F15' if is_f15(d, x, finset) else None, pattern=b, impl=g)
+            R.viol(f'encode(decode({b})) raises {g}', d, None, pattern=b, impl=g)
         elif sx[0] == 'nan':
             if layout(d, e)[0] != 'nan':
                 R.viol(f'encode(NaN) = {e} is not a NaN pattern', d, None, pattern=b, impl=g)
         elif e != b:
-            R.viol(f'encode(decode({b})) = {e}, expected {b}', d, 'F16' if is_f16(d, x, e) else None, pattern=b, impl=g,
+            R.viol(f'encode(decode({b})) = {e}, expected {b}', d, None, pattern=b, impl=g,
                    redecoded=layout(d, e) if 0 <= e < (1 << F.total_bits()) else None)
     if sx[0] != 'fin':
         g, y = tryv(lambda: F.normalize(x)); R.emit(f'normalize {ft} {xt}', g)
         if y is None or not same_spec(spec_of_float(y), sx):
-            R.viol(f'normalize({x}) = {g}', d, 'F15' if is_f15(d, x, finset) else None, pattern=b, impl=g)
+            R.viol(f'normalize({x}) = {g}', d, None, pattern=b, impl=g)
         return
     # finite: ordinal, normalisation, re-encodings
     g, o = tryv(lambda: F.to_ordinal(x)); R.emit(f'ord {ft} {xt} 0', g)
@@ -213,7 +187,7 @@ def check_value_ops(R: Run, d, F, ft, x, b, finset, exhaustive_sorted):
         g, y = tryv(lambda: F.normalize(xv)); R.emit(f'normalize {ft} {vt}', g)
         if y is None or not same_spec(spec_of_float(y), sx):
             R.viol(f'normalize(exp={xv.exp}, c={xv.c}) = {g}: value changed (expected {sx[2]})', d,
-                   'F2' if is_f2(d, xv, y) else None, pattern=b, impl=g, operand=vt)
+                   None, pattern=b, impl=g, operand=vt)
         elif not spec_canonical(d, y):
             R.viol(f'normalize(exp={xv.exp}, c={xv.c}) = {g} is not the canonical encoding', d, None, pattern=b, impl=g, operand=vt)
     if o is None:
@@ -316,15 +290,12 @@ def run_encodable(R: Run, d, pats=None):
             g, r = tryv(lambda: F.representable_in(v)); R.emit(f'repr {ft} {vt}', g)
             if r is not member:
                 R.viol(f'representable_in({v}) = {g}, but {"a" if member else "no"} pattern decodes to it', d,
-                       'F15' if (member and is_f15(d, v, finset)) else None, impl=g)
+                       None, impl=g)
             if r is True:
                 g, e = tryv(lambda: F.encode(v)); R.emit(f'enc {ft} {vt}', g)
                 back = layout(d, e) if (e is not None and 0 <= e < (1 << nb)) else None
                 if back is None or not same_spec(back, sv):
-                    fid = None
-                    if is_f16(d, v, e): fid = 'F16'
-                    elif d['fam'] == 'ef' and d['kind'] == 'negzero' and v.isnan and not v.s and e == 0: fid = 'F17'
-                    R.viol(f'encode({v}) = {g} which decodes to {back}', d, fid, impl=g)
+                    R.viol(f'encode({v}) = {g} which decodes to {back}', d, None, impl=g)
         # representable_iff_decoded: numbers strictly between neighbours / beyond the extremes are refused
         outs = [(a + c) / 2 for a, c in zip(finset, finset[1:])]
         if len(finset) >= 2:
@@ -376,7 +347,7 @@ def run_ordinal(R: Run, d, K):
             g, y = tryv(lambda: F.normalize(xv)); R.emit(f'normalize {ft} {vt}', g)
             if y is None or not same_spec(spec_of_float(y), sx):
                 R.viol(f'normalize(exp={xv.exp}, c={xv.c}) = {g}: value changed (expected {v})', d,
-                       'F2' if is_f2(d, xv, y) else None, impl=g, operand=vt)
+                       None, impl=g, operand=vt)
             elif not spec_canonical(d, y):
                 R.viol(f'normalize(exp={xv.exp}, c={xv.c}) = {g} is not canonical', d, None, impl=g, operand=vt)
         for name, dk, fn in (('next_up', 1, F.next_up), ('next_down', -1, F.next_down)):
@@ -480,9 +451,10 @@ def run(rep, tier, seed):
     Rn = Prng(seed, 'C16')
     R = Run(rep)
     quick = tier == 'quick'
-    # corpus: the shapes that broke something once
+    # corpus: the shapes that broke once (repaired defects F2, F15, F16, F23), run first as regression inputs
     corpus = [dict(fam='fixed', signed=True, scale=0, nbits=8), dict(fam='ef', es=0, nbits=2, inf=False, kind='maxval', eoff=0),
-              dict(fam='ef', es=2, nbits=3, inf=True, kind='maxval', eoff=0), dict(fam='ef', es=1, nbits=2, inf=True, kind='negzero', eoff=0)]
+              dict(fam='ef', es=2, nbits=3, inf=True, kind='maxval', eoff=0), dict(fam='ef', es=1, nbits=2, inf=True, kind='negzero', eoff=0),
+              dict(fam='ef', es=4, nbits=8, inf=False, kind='negzero', eoff=0)]
     fmts = corpus + formats_for(tier)
     seen = set()
     nfmt = 0
